@@ -135,6 +135,7 @@ pub struct RandomDirector {
     rx: usize,
     downgrade: bool,
     force_drop: bool,
+    reconnected_once: bool,
 }
 
 impl RandomDirector {
@@ -164,6 +165,7 @@ impl RandomDirector {
             rx,
             downgrade,
             force_drop: false,
+            reconnected_once: false,
         }
     }
 
@@ -286,7 +288,8 @@ impl RandomDirector {
                     self.push_ack(rc::ack(4, cp.id, code, short, &[]));
                 }
                 3 if cp.qos == 2 => {
-                    let code = self.ack_reason(&[0, 0, 0, 0x10]);
+                    // a retransmission gets the answer the first transmission got
+                    let code = if self.broker.in_q2.contains(&cp.id) { 0 } else { self.ack_reason(&[0, 0, 0, 0x10]) };
                     let short = if code != 0 && short == 2 { 3 } else { short };
                     if code < 0x80 {
                         self.broker.in_q2.insert(cp.id);
@@ -623,10 +626,21 @@ impl Director for RandomDirector {
             if self.idle > 50 {
                 return PendDec::Cancel;
             }
+            // Nothing in transit although operations are outstanding: an answer was lost in the
+            // non-benign phase. The benign continuation recovers by reconnecting (resumed).
+            if self.idle > 2 && !self.reconnected_once {
+                self.reconnected_once = true;
+                self.force_drop = true;
+                return PendDec::Cancel;
+            }
             return match view.wakes.first() {
                 Some(w) if *w > view.now_ms => PendDec::Adv(*w),
                 Some(_) => PendDec::Adv(view.now_ms + 1000),
-                None => PendDec::Cancel,
+                None => {
+                    self.force_drop = !self.reconnected_once;
+                    self.reconnected_once = true;
+                    PendDec::Cancel
+                }
             };
         }
         if self.cur_op != "conn" && self.chance(self.p.p_inbound) {
